@@ -130,7 +130,16 @@ func evalDo(
 			keyLen := len(doStmt.Fn.Args)
 			key := make([]ast.Constant, keyLen)
 			for i, v := range doStmt.Fn.Args {
-				key[i] = subst.Get(v.(ast.Variable)).(ast.Constant)
+				variable, ok := v.(ast.Variable)
+				if !ok {
+					return fmt.Errorf("group_by expects variables, got %v", v)
+				}
+				c, ok := subst.Get(variable).(ast.Constant)
+				if !ok {
+					// e.g. a variable that only an input mode of the head predicate "binds".
+					return fmt.Errorf("group_by: variable %v has no value in a solution of the body of %v", variable, head)
+				}
+				key[i] = c
 			}
 			h := groupKeyString(key)
 			group, ok := keyToGroup[h]
